@@ -36,7 +36,8 @@ def scenarios(quick):
               (T.join2(maxseq=2), 'SpecPrompt', 8 if quick else 100, 150),
               (T.hidden(maxseq=1), 'Spec', 6 if quick else 100, 200),
               (T.tee_rejoin_multi(maxseq=3), 'SpecPrompt', 6 if quick else 80, 250),
-              (T.tee_rejoin_relay(maxseq=3), 'SpecPrompt', 6 if quick else 80, 300)],
+              (T.tee_rejoin_relay(maxseq=3), 'SpecPrompt', 6 if quick else 80, 300),
+              (T.explicit_multi(maxseq=5), 'SpecPrompt', 6 if quick else 80, 300)],
         # random schedules on the real code: (topology, runs, steps, p_timeout, p_drop)
         rand=[(T.tee_rejoin2(maxseq=3), 10 if quick else 200, 700, 0.03, 0.0),
               (T.tee_rejoin2(maxseq=3, skipA=(0,), skip=(2,), slowB=True, explicit_b=True), 12 if quick else 200, 700, 0.03, 0.0),
@@ -46,7 +47,9 @@ def scenarios(quick):
               # varying topic sets + skipping branch + lost publishes: a half-read sibling buffer must be invalidated too
               (T.tee_rejoin_multi(maxseq=5), 14 if quick else 250, 900, 0.03, 0.08),
               # the rejoin is a relay (recv() is called with the sender's state): adopted ids must survive recv() slices
-              (T.tee_rejoin_relay(maxseq=4), 16 if quick else 250, 1200, 0.03, 0.0)],
+              (T.tee_rejoin_relay(maxseq=4), 16 if quick else 250, 1200, 0.03, 0.0),
+              # explicit two-topic subscription, topic set varying per id, an id skipped upstream
+              (T.explicit_multi(maxseq=5), 8 if quick else 150, 900, 0.03, 0.0)],
     )
 
 
